@@ -393,10 +393,10 @@ namespace fixedmath
     [[ gnu::const, gnu::always_inline ]]
     constexpr fixed_t fixed_multiplyi (fixed_t lh, fixed_t rh) noexcept
       {
-      fixed_t result { fix_carrier_t{ lh.v * rh.v }};
-
-      if( fixed_likely( check_multiply_result(result)) )
-        return fix_carrier_t{ result.v >> 16 };
+      fixed_internal result {};
+      //the 64bit product has to be checked for overflow, the wrapped value carries no information about it
+      if( fixed_likely( !__builtin_mul_overflow( lh.v, rh.v, &result ) ) )
+        return fix_carrier_t{ result >> 16 };
       
       return quiet_NaN_result();
       }
@@ -426,10 +426,11 @@ namespace fixedmath
     [[ gnu::const, gnu::always_inline ]]
     constexpr fixed_t fixed_multiply_scalar (fixed_t lh, integral_type rh) noexcept
       {
-      fixed_t result { fix_carrier_t{ lh.v * promote_type_to_signed(rh) }};
-
-      if( fixed_likely( check_multiply_result(result)) )
-        return result;
+      fixed_internal result {};
+      //multiply by the scalar in its own type, unsigned 64bit values do not fit into the signed promotion
+      if( fixed_likely( !__builtin_mul_overflow( lh.v, +rh, &result ) //+rh: integral promotion, bool is not accepted
+                        && result >= limits_::lowest().v && result <= limits_::max().v ) )
+        return fix_carrier_t{ result };
       return quiet_NaN_result();
       }
     template<typename integral_type,
